@@ -733,14 +733,25 @@ def cmp_dt_text(op, a, b):
     if not (isinstance(a, (S.SDatetime,)) or hasattr(a, "utcoffset")) or not (isinstance(b, (S.SDatetime,)) or hasattr(b, "utcoffset")):
         raise Unsupported("datetime text compared with %r / %r" % (type(a), type(b)))
     oa, ob = S._off_of(a), S._off_of(b)
-    if is_z3(oa) or is_z3(ob) or oa != ob:
-        raise Unsupported("comparison of datetime texts with different / symbolic UTC offsets")
     ua, ub = S.dt_us(a), S.dt_us(b)
-    # same offset: compare (whole second, has-fraction, fraction); '+'/'-' (0x2b/0x2d) sort before '.' (0x2e)
-    sa, sb = ua / 1000000 if is_z3(ua) else ua // 1000000, ub / 1000000 if is_z3(ub) else ub // 1000000
-    fa, fb = ua % 1000000, ub % 1000000
-    lt = Or(sa < sb, And(sa == sb, fa < fb))
-    eq = And(sa == sb, fa == fb)
+    # the text is the LOCAL wall clock followed by the offset suffix: compare (wall second, fraction, suffix).
+    # A zero microsecond renders without a fraction, and '+' / '-' (0x2b / 0x2d) sort before '.' (0x2e),
+    # which agrees with fraction 0 < any fraction.
+    wa, wb = ua + oa * 60000000, ub + ob * 60000000
+    sa = wa / 1000000 if is_z3(wa) else wa // 1000000
+    sb = wb / 1000000 if is_z3(wb) else wb // 1000000
+    fa, fb = wa % 1000000, wb % 1000000
+
+    def suffix_lt(x_, y_):
+        # '+HH:MM' < '-HH:MM'; among '+' larger offsets are larger texts, among '-' larger magnitudes are
+        if isinstance(x_, int) and isinstance(y_, int):
+            kx, ky = ((0, x_) if x_ >= 0 else (1, -x_)), ((0, y_) if y_ >= 0 else (1, -y_))
+            return kx < ky
+        return z3.If(x_ >= 0, z3.If(y_ >= 0, x_ < y_, True), z3.If(y_ >= 0, False, -x_ < -y_))
+
+    same_off = (oa == ob)
+    lt = Or(sa < sb, And(sa == sb, fa < fb), And(sa == sb, fa == fb, suffix_lt(oa, ob)))
+    eq = And(sa == sb, fa == fb, same_off)
     return {"=": eq, "!=": Not(eq), "<": lt, "<=": Or(lt, eq), ">": Not(Or(lt, eq)), ">=": Not(lt)}[op]
 
 
